@@ -1,4 +1,5 @@
 import SieveModel.Lemmas.ClientRead
+import SieveModel.Props.C09
 /-! # C15 — session-level consequences of T-READ (theorems follow) -/
 namespace C15
 open Client Reader
@@ -8,4 +9,26 @@ theorem exchanges_stay_in_step (a b : Client) (h : SameC a b) (name : Bytes) (ar
     (extra : List Bytes) (nbl : Option Nat) :
     SameC (sendCommand a name args extra nbl).2 (sendCommand b name args extra nbl).2 :=
   (sendCommand_congr a b h name args extra nbl).2
+/-- **replies are consumed one at a time**: with two status replies pending (say the answers to two
+    pipelined or consecutive commands), the first read returns the first status and the second read the
+    second — the reply of one command is never taken for the reply of the next, however the bytes arrive -/
+theorem consecutive_replies_are_read_in_order (nbl : Option Nat) (st : RState) (rest : Bytes)
+    (hp : pending st = sb "NO" ++ 13 :: 10 :: (sb "OK" ++ 13 :: 10 :: rest)) :
+    ∃ st1 st2, readResponse nbl st = .ok (⟨some .NO, none, []⟩, st1) ∧
+      readResponse nbl st1 = .ok (⟨some .OK, none, []⟩, st2) ∧ pending st2 = rest := by
+  obtain ⟨st1, h1, hp1, _, _⟩ := C09.bare_no_reply_is_read nbl st _ hp
+  obtain ⟨st2, h2, hp2, _, _⟩ := C09.ok_reply_is_read nbl st1 rest hp1
+  exact ⟨st1, st2, h1, h2, hp2⟩
+
+/-- the error text of an earlier `NO` does not survive a later bare `NO` (no stale `errmsg` / `errcode`) -/
+theorem later_reply_alone_decides_error_fields (nbl : Option Nat) (st : RState) (code text rest : Bytes)
+    (hne : code ≠ []) (hc : ∀ c ∈ code, isAtomByte c = true) (htext : ReplyLine.NoLF text)
+    (hp : pending st = 78 :: 79 :: 32 :: (40 :: (code ++ 41 :: 32 :: (34 :: (escapeQ text ++ [34])))) ++ 13 :: 10 ::
+            (sb "NO" ++ 13 :: 10 :: rest)) :
+    ∃ st1 st2 r1 r2, readResponse nbl st = .ok (r1, st1) ∧ st1.errcode = code ∧ st1.errmsg = text ∧
+      readResponse nbl st1 = .ok (r2, st2) ∧ st2.errcode = [] ∧ st2.errmsg = [] ∧ pending st2 = rest := by
+  obtain ⟨st1, h1, hp1, hc1, hm1⟩ := C09.no_code_text_reply_is_read nbl st code text _ hne hc htext hp
+  obtain ⟨st2, h2, hp2, hc2, hm2⟩ := C09.bare_no_reply_is_read nbl st1 rest hp1
+  exact ⟨st1, st2, _, _, h1, hc1, hm1, h2, hc2, hm2, hp2⟩
+
 end C15
